@@ -32,6 +32,7 @@ const (
 func runC19(c *Ctx) {
 	c19Remaining(c)
 	c19CopiedWriters(c)
+	c19ExactMatch(c)
 	c19BodyFlows(c)
 	c19Imports(c)
 }
@@ -396,5 +397,52 @@ func c19Imports(c *Ctx) {
 			}
 		}
 		c.R.Check(withAlias && without, "File.Imports/reserves-with-alias", c.pos(fn.Pos()), "Reserve(path) and Reserve(path, alias)", "File.Imports no longer reserves aliased imports with their alias: the regenerated file imports the package under another name and the kept bodies stop compiling")
+	}
+}
+
+// c19ExactMatch: GetPrevDecl returns a declaration only when its name equals the requested method name and its receiver type
+// name equals the requested struct name (string equality, not a looser match).
+func c19ExactMatch(c *Ctx) {
+	c.R.Rule("exact-match", "Rewriter.GetPrevDecl returns a non-nil declaration only on the edges `decl.Name.Name == methodname` and `receiver identifier == structname` (plain string equality on the two parameters)", 1)
+	fn := c.fn(pkgRewrite, "*Rewriter.GetPrevDecl")
+	if fn == nil {
+		return
+	}
+	params := map[string]ssa.Value{}
+	for _, p := range fn.Params {
+		params[p.Name()] = p
+	}
+	n := 0
+	for _, r := range an.Returns(fn) {
+		nonNil := false
+		for _, ve := range returnValueEdges(r, 0) {
+			if !an.IsNilConst(ve.val) {
+				nonNil = true
+			}
+		}
+		if !nonNil {
+			continue
+		}
+		n++
+		got := map[string]bool{}
+		for _, f := range an.Facts(r) {
+			if f.Op != token.EQL {
+				continue
+			}
+			for _, pr := range [][2]ssa.Value{{f.X, f.Y}, {f.Y, f.X}} {
+				for name, p := range params {
+					if pr[1] == p {
+						if fa, ok := loadAddr(pr[0]).(*ssa.FieldAddr); ok && fieldNameOf(fa) == "Name" {
+							got[name] = true
+						}
+					}
+				}
+			}
+		}
+		ok := got["methodname"] && got["structname"]
+		c.R.Check(ok, "GetPrevDecl/returns-only-exact-match", c.ipos(r), "name == methodname and receiver == structname", sprintf("GetPrevDecl can return a declaration without an exact string match (method name tested exactly: %v, struct name tested exactly: %v): a differently named method's body is taken for the resolver and that method is dropped", got["methodname"], got["structname"]))
+	}
+	if n == 0 {
+		c.R.Fail("exact-match: GetPrevDecl never returns a declaration")
 	}
 }
